@@ -669,6 +669,97 @@ pub fn damaged_handshake_panics(base: Instant, thorough: bool, dl: Instant) -> (
     (n, out, capped)
 }
 
+/// A client resuming a session remembers the server's transport parameters - among them the
+/// stateless reset token of the PREVIOUS connection. That token says nothing about the new
+/// connection: a datagram ending in it must not end the new attempt at any point of the handshake.
+/// Returns (cases, violations).
+pub fn stale_ticket_token_probes(base: Instant, thorough: bool) -> (u64, Vec<Violation>) {
+    let mut viol = vec![];
+    let mut n = 0u64;
+    // (the earlier connection ran against a server instance with other secrets: its CIDs and reset
+    // tokens differ from everything the new connection will legitimately learn)
+    let mut old = cfg_by_name("default");
+    old.seed = 9;
+    let params = crate::checks::c17::remembered(base, &old);
+    let Some(token) = wire::parse_transport_params(&params).ok().and_then(|t| t.into_iter().find(|(i, _)| *i == 0x02)).map(|(_, v)| v) else {
+        crate::report::machinery("the remembered server parameters carry no stateless_reset_token");
+    };
+    for accept in [true, false] {
+        for at in 0..(if thorough { 16u64 } else { 9 }) {
+            for first in [0xc3u8, 0xe3, 0xd3, 0x43] {
+                for len in [40usize, 80, 1200] {
+                    n += 1;
+                    let r = guarded(|| {
+                        let mut cfg = cfg_by_name("default");
+                        cfg.ticket = Some(mtls::Ticket { server_params: params.clone(), secret: [7; 16] });
+                        cfg.accept_early = accept;
+                        let mut p = std_pair(base, &cfg, Wl::W1, ReadMode::default());
+                        let mut injected = false;
+                        let mut g = 0;
+                        while g < 4000 {
+                            g += 1;
+                            if !injected && p.w.steps >= at {
+                                injected = true;
+                                let Some(ini) = first_client_initial(&p) else { break };
+                                let mut d = vec![first];
+                                if first & 0x80 != 0 {
+                                    d.extend_from_slice(&ini.version.to_be_bytes());
+                                    d.push(ini.scid.len() as u8);
+                                    d.extend_from_slice(&ini.scid);
+                                    d.push(0);
+                                    if first & 0x30 == 0 {
+                                        d.push(0); // Initial: token length
+                                    }
+                                    // well-formed length field covering the rest of the datagram
+                                    let body = len.saturating_sub(d.len() + 2).max(20);
+                                    d.push(0x40 | (body >> 8) as u8);
+                                    d.push(body as u8);
+                                    let end = d.len() + body - 16;
+                                    while d.len() < end {
+                                        d.push((d.len() * 7) as u8 | 1);
+                                    }
+                                } else {
+                                    d.extend_from_slice(&ini.scid);
+                                    while d.len() < len.max(ini.scid.len() + 22) - 16 {
+                                        d.push((d.len() * 7) as u8 | 1);
+                                    }
+                                }
+                                d.extend_from_slice(&token);
+                                let (src, dst) = (p.w.nodes[SERVER].addr, p.w.nodes[CLIENT].addr);
+                                p.w.inject(src, dst, d, Duration::ZERO);
+                            }
+                            if workload_done(&p) || !p.w.step() {
+                                break;
+                            }
+                        }
+                        let lost: Vec<String> = p.client().lost.iter().map(|e| format!("{e:?}")).collect();
+                        (lost, workload_done(&p))
+                    });
+                    let rj = json!({"check":"c04","kind":"stale-ticket-token","accept":accept,"at":at,"first":first,"len":len});
+                    match r {
+                        Err(e) => viol.push(Violation { signature: "panic".into(), what: format!("stale ticket token probe: panic: {e}"), replay: rj }),
+                        Ok((lost, done)) => {
+                            if lost.iter().any(|l| l.contains("Reset")) {
+                                viol.push(Violation {
+                                    signature: "reset-token-of-previous-connection-acted-on:client".into(),
+                                    what: format!("a client resuming with a ticket (0-RTT {}) received at step {at} a {len}-byte datagram (first byte {first:#x}) ending in the stateless reset token its server had advertised on the PREVIOUS connection and reported {lost:?}", if accept { "accepted" } else { "rejected" }),
+                                    replay: rj,
+                                });
+                            } else if !done {
+                                viol.push(Violation { signature: "stale-ticket-token-probe-broke-handshake:client".into(), what: format!("after the probe at step {at} (first byte {first:#x}, {len} bytes) the workload no longer completes: lost={lost:?}"), replay: rj });
+                            }
+                        }
+                    }
+                    if viol.len() >= 4 {
+                        return (n, viol);
+                    }
+                }
+            }
+        }
+    }
+    (n, viol)
+}
+
 /// Client-side Retry rules (used by C14): forged Retry packets whose integrity tag verifies, at every
 /// step index; a Retry is followed at most once and never after a server packet was accepted.
 pub fn retry_probe_part(rep: &mut Report, base: Instant, thorough: bool, dl: Instant) {
@@ -1044,6 +1135,15 @@ pub fn main(args: &Args) -> ! {
     rep.part("probes", json!({"cases": nprobe, "executed": res.len(), "exact_resets_effective": resets_effective, "valid_retries_followed": retries_followed, "vn_effective": vn_effective, "retry_after_lone_initial_cases": lone_initial, "capped": capped}));
     if resets_effective == 0 || retries_followed == 0 || vn_effective == 0 || lone_initial == 0 {
         machinery("vacuity guard: no exact reset / valid Retry / early VN ever took effect — probe construction is wrong");
+    }
+    // (c2) the reset token remembered from a previous connection (session ticket) is not this connection's
+    {
+        let (n, vs) = stale_ticket_token_probes(base, thorough);
+        rep.evaluations += n;
+        for v in vs {
+            rep.violation(v);
+        }
+        rep.part("stale_ticket_reset_token", json!({"cases": n}));
     }
     // (d) the replay window itself (Dedup) against the set of packet numbers seen, E1
     crate::checks::merge_comp(&mut rep, "C04", thorough, dl);
